@@ -896,6 +896,12 @@ func ConcatAll[T any]() func(Observable[Observable[T]]) Observable[T] {
 					subscriberCtx,
 					NewObserverWithContext(
 						func(ctx context.Context, source Observable[T]) {
+							// A previous inner Observable failed, or downstream unsubscribed,
+							// while the outer Observable keeps emitting synchronously.
+							if subscriptions.IsClosed() {
+								return
+							}
+
 							sub := source.SubscribeWithContext(
 								ctx,
 								NewObserverWithContext(
